@@ -15,6 +15,9 @@ CONSTANTS Ctx <- McCtx
  ATo = {"a1", "a2", "a3", "Z"}
  AAmt <- McAAmtQ
  IAmt <- McIAmt
+ ACodes = {"T", "C"}
+ AIds = {"T"}
+ BGL = {}
  BoxFrom = {}
  BoxTo = {}
  RewFrom = {}
